@@ -29,7 +29,7 @@ REFVARS = [('i', 'int'), ('cur', 'ref'), ('target', 'ref'), ('scope', 'chainmap'
 
 def contracts():
     cs = []
-    cs.append(Equiv('core._t_eval', 'ref_t.teval_ref', config=_nosum('core._t_eval'),
+    cs.append(Equiv('core._t_eval', 'ref_t.teval_ref',
                     args={'target': 'ref', '_t': 'inst:core.TType', 'scope': 'chainmap'},
                     requires=TS + ['len(_t.__ops__) % 2 == 1'],
                     loops={1: dict(ref=1, vars=[('target', 'ref'), ('scope', 'chainmap')], ref_vars=[('target', 'ref'), ('scope', 'chainmap')]),
